@@ -64,6 +64,8 @@ func (u *User) init() error {
 		}
 	}
 
+	// 重新初始化时丢弃旧的匹配器，否则权限只增不减
+	u.pushMatchers, u.pullMatchers = nil, nil
 	initMatchers(u.PushAccess, &u.pushMatchers)
 	initMatchers(u.PullAccess, &u.pullMatchers)
 	return nil
